@@ -62,7 +62,7 @@ def gen_names(rng, shaped):
     for q in queries:
         if q not in uniq:
             uniq.append(q)
-    return {"kind": "trie", "shaped": shaped, "names": names, "queries": uniq[:80]}
+    return {"kind": "trie", "shaped": shaped, "names": names, "queries": uniq[:80], "via": rng.choice(["tree", "graph"])}
 
 
 def gen_register(rng):
@@ -82,6 +82,17 @@ class _Stub:
 def run_impl(case):
     from avocado_i2n.cartgraph.node import PrefixTree, EdgeRegister
     if case["kind"] == "trie":
+        if case.get("via") == "graph":
+            # the same look-ups through the graph's own index (TestGraph.new_nodes / get_nodes_by_name)
+            from avocado_i2n.cartgraph import TestGraph
+            g = TestGraph()
+            for i, n in enumerate(case["names"]):
+                g.new_nodes(_Stub(params={"name": ".".join(n)}, idx=i))
+            out = []
+            for q in case["queries"]:
+                s = ".".join(q)
+                out.append([[x.idx for x in g.get_nodes_by_name(s)], s in g.nodes_index])
+            return out
         tree = PrefixTree()
         nodes = []
         for i, n in enumerate(case["names"]):
